@@ -339,6 +339,43 @@ fn gen_triple_script(rng: &mut Rng) -> Script {
     Script { qname, recs }
 }
 
+/// The guard of D_new_compressor_partial_match_children, as a property of
+/// the names of a script: two names end in a.S and a.T for the same label a
+/// where T is a non-empty proper suffix of S (so T can match an entry for S
+/// only partly while `a` is remembered as a child of that entry).
+fn prone_to_partial_match(s: &Script) -> bool {
+    let mut names: Vec<Vec<String>> = vec![];
+    let mut add = |n: &str| {
+        let ls: Vec<String> = n.trim_end_matches('.').split('.').filter(|x| !x.is_empty()).map(|x| x.to_ascii_lowercase()).collect();
+        names.push(ls);
+    };
+    add(&s.qname);
+    for r in &s.recs {
+        add(&r.owner);
+        match &r.rd {
+            Rd::Ns(n) | Rd::Cname(n) | Rd::Mx(n) => add(n),
+            _ => {}
+        }
+    }
+    for n1 in &names {
+        for n2 in &names {
+            // n1 = .. a S, n2 = .. a T
+            for i in 0..n1.len() {
+                for j in 0..n2.len() {
+                    if n1[i] != n2[j] {
+                        continue;
+                    }
+                    let (s1, t) = (&n1[i + 1..], &n2[j + 1..]);
+                    if !t.is_empty() && t.len() < s1.len() && s1[s1.len() - t.len()..] == *t {
+                        return true;
+                    }
+                }
+            }
+        }
+    }
+    false
+}
+
 /// One step of a fill script: the section, whether the push succeeded and
 /// the header counts afterwards.
 fn step_json(sec: u8, ok: bool, c: [u16; 4]) -> Value {
@@ -774,14 +811,16 @@ fn main() {
                     let j = judge(&m, &want);
                     if m.len() <= 220 {
                         tw.event(json!({"ev": "built", "side": side, "m": json_bytes(&m), "items": want,
+                                        "prone": prone_to_partial_match(&s),
                                         "old_reads": j["old_reads"], "new_reads": j["new_reads"]}));
                     } else {
                         tw.event(json!({"ev": "bigbuilt", "side": side, "len": m.len(), "built": "ok",
+                                        "prone": prone_to_partial_match(&s),
                                         "old_reads": j["old_reads"], "new_reads": j["new_reads"],
                                         "script": format!("{:?}", s).chars().take(600).collect::<String>()}));
                     }
                 }
-                Err(e) => tw.event(json!({"ev": "bigbuilt", "side": side, "len": 0, "built": e,
+                Err(e) => tw.event(json!({"ev": "bigbuilt", "side": side, "len": 0, "built": e, "prone": false,
                                           "old_reads": false, "new_reads": false,
                                           "script": format!("{:?}", s).chars().take(600).collect::<String>()})),
             }
